@@ -146,6 +146,11 @@ class Report:
             print("  signature:", json.dumps(sig, default=str)[:600])
         if self.violations:
             return 1
+        if not self.cov["traces_validated_against_impl"] and not self.cov["evaluations"]:
+            # a run in which nothing of the implementation was judged says nothing about the property (on the unchanged code every
+            # check judges thousands of steps): it must not read as "held"
+            die_machinery(f"{self.pid}: no execution of the implementation was validated (0 traces, 0 evaluations) - the harness "
+                          "could not observe the code under test")
         print(f"OK property={self.pid} tier={self.tier} states={self.cov['states']} "
               f"traces={self.cov['traces_validated_against_impl']} evals={self.cov['evaluations']} "
               f"nontrivial={self.cov['distinct_nontrivial']} wall={ev['wall_s']}s")
